@@ -7,8 +7,8 @@
 //!                                                   stackidx -1 = null descriptor starting at sbase
 //!   N <k>  { id readable nameid }*k                  thread name "n<nameid>"
 //!   E <present> tid code flags nparams info0 info1 info2 addr ctxkind ip sp
-//!   B <present> validity dump_tid req_tid
-//!   M <present> size flags1 pid ctime
+//!   B <form> validity dump_tid req_tid              form 0 absent | 1 the 12-byte structure | 2 truncated to 8 bytes | 3 16 bytes
+//!   M <present> size flags1 pid ctime               the stream is exactly `size` bytes long (unreadable below 24)
 //!   L <present> kind pid hex                         the bytes of the /proc/self/status stream in hex ("-" = empty); kind / pid
 //!                                                   only describe how the generator built them
 //!   MOD <m> { base size }*m
@@ -56,6 +56,8 @@ pub struct Case {
     pub names: Vec<(u32, bool, String)>,
     pub exc: Option<ExcCase>,
     pub bp: Option<(u32, u32, u32)>,
+    /// 1 = the 12-byte structure, 2 = truncated to 8 bytes, 3 = 16 bytes
+    pub bp_form: u64,
     pub misc: Option<(u32, u32, u32, u32)>,
     pub status: Option<(u64, u64)>,
     pub status_text: Option<Vec<u8>>,
@@ -125,10 +127,11 @@ pub fn parse_case(t: &mut Toks) -> Case {
         c.exc = Some(e);
     }
     expect_tok(t, "B");
-    let present = t.u64() != 0;
+    let form = t.u64();
     let b = (t.u64() as u32, t.u64() as u32, t.u64() as u32);
-    if present {
+    if form != 0 {
         c.bp = Some(b);
+        c.bp_form = form;
     }
     expect_tok(t, "M");
     let present = t.u64() != 0;
@@ -393,12 +396,20 @@ pub fn build_dump(c: &Case) -> Vec<u8> {
     if let Some((validity, dt, rt)) = c.bp {
         dump = dump.add_stream(SimpleStream {
             stream_type: md::MINIDUMP_STREAM_TYPE::BreakpadInfoStream as u32,
-            section: Section::with_endian(e).D32(validity).D32(dt).D32(rt),
+            section: match c.bp_form {
+                2 => Section::with_endian(e).D32(validity).D32(dt),
+                3 => Section::with_endian(e).D32(validity).D32(dt).D32(rt).D32(0xdead_beef),
+                _ => Section::with_endian(e).D32(validity).D32(dt).D32(rt),
+            },
         });
     }
     if let Some((size, flags1, pid, ctime)) = c.misc {
         let s = Section::with_endian(e).D32(size).D32(flags1).D32(pid).D32(ctime).D32(0).D32(0);
         let s = s.append_repeated(0, (size as usize).saturating_sub(24));
+        // the stream is exactly `size` bytes long: shorter than the 24-byte structure when size < 24
+        let mut bytes = s.get_contents().unwrap();
+        bytes.truncate(size as usize);
+        let s = Section::with_endian(e).append_bytes(&bytes);
         dump = dump.add_stream(SimpleStream { stream_type: md::MINIDUMP_STREAM_TYPE::MiscInfoStream as u32, section: s });
     }
     if let Some(text) = &c.status_text {
